@@ -101,8 +101,8 @@ func (ex *Exec) assert(st *State, cond *Term, label string, detail string) {
 		return
 	}
 	neg := ex.Ctx.Not(cond)
-	// quick sliced check first
-	r := st.feasible(neg)
+	// sliced check first
+	r := st.feasibleFinal(neg)
 	if r == Unsat {
 		ls.Discharged++
 		res.Discharged++
